@@ -48,8 +48,10 @@ CHECKS = {
          "computation). Dynamic clauses, on the reader model of C14: read_pil of any list of well-shaped lines in any good session "
          "never ends in an interpreter-level fault kind (NameError, TypeError, AttributeError, IndexError, KeyError, "
          "UnboundLocalError, ValueError, ZeroDivisionError, OverflowError), ignored reactions go to `other` and the read "
-         "continues, a failed read leaves every held object alive and registered. Partial: that every parser output is "
-         "well-shaped is checked at run time, not proved; lengths above sys.maxsize are outside the model (known finding). "
+         "continues, a failed read leaves every held object alive and registered; and every token list the PEG interpreter "
+         "can return on the regenerated grammar is well-shaped (C16_grammar_shape), so the hypothesis holds for everything "
+         "read_pil can receive. Partial: model-level outcome kinds (OutOfFuel/BadRequest/Unmodelled) are not excluded by a "
+         "theorem; lengths above sys.maxsize are outside the model (known finding). "
          "Every run also executes 40 kinds of single-fault corruptions of generated documents and token-level mutations "
          "against the implementation and reports any undeclared exception with the document as replay.",
     design="DESIGN.md 7 (C16)", technique="Coq proof over the regenerated global-reference table and on the reader model; fault streams on the implementation as support"),
@@ -188,9 +190,13 @@ CHECKS = {
          "parsing its content; round trip parse(render t) = [t] for every name, number, list length, nesting depth and "
          "blank/comment/line-end layout of dl-domain, sl-domain, strand/sup-sequence, macrostate, both strand-complex forms, "
          "reaction without rate box, kernel complex without concentration; rejection of a missing assignment sign and of a "
-         "malformed number; missing-name rejection REFUTED (`length = 5`, known finding). Not proved: rate box, "
-         "concentration, tab layouts, unbalanced brackets, sufficiency of the default fuel — all of it, plus files and parser "
-         "histories, is compared with pyparsing and evaluated on the implementation on every run.",
+         "malformed number, of an unmatched ')' and of a detached '('; the default fuel suffices for every text (termination "
+         "checker proved sound and run on the regenerated table: no left recursion, no nullable loop), so every theorem "
+         "holds for parse_pil as run; no_skipped_text (every character of an accepted text is a terminal, a line end, a "
+         "comment or skipped blanks); token-language soundness; reaction rate box and kernel concentration round trips; "
+         "missing-name rejection REFUTED (`length = 5`, known finding). Not proved: tab layouts, an attached unclosed '('. "
+         "All of it, plus files and parser histories, is compared with pyparsing and evaluated on the implementation on "
+         "every run.",
     design="DESIGN.md 7 (C13)", technique="Coq big-step rules derived from a fuelled PEG interpreter + regenerated grammar table + differential correspondence with pyparsing"),
  "C14": dict(
     text="Proof about a Gallina model of read_pil / read_pil_line over the registry machine (Hoare logic over a state/exception "
@@ -213,9 +219,11 @@ CHECKS = {
  "C19": dict(
     text="Proof on the same PEG interpreter over the regenerated seesaw node table: documents parse to the concatenation of "
          "their statements, fuel independence, file = content, round trips of reporter and INPUT statements and of wires for "
-         "all numbers and layouts, rejection of an input bound to a fluorophore. The other statement kinds (OUTPUT, seesaw, the "
-         "three conc forms, inputfanout, seesawOR, seesawAND) and the negative family are compared with pyparsing and evaluated "
-         "on the implementation on every run (round trips, rejections), not proved.",
+         "all numbers and layouts, of OUTPUT (wire and Fluor), seesaw, the three conc forms in both argument orders, inputfanout, "
+         "seesawOR and seesawAND; rejection of an input bound to a fluorophore, of negative concentrations and of wrong "
+         "reporter arguments; the default fuel suffices for every text; no_skipped_text. Not proved: wrong number/kind of "
+         "arguments for kinds other than reporter. The whole negative family is compared with pyparsing and evaluated on the "
+         "implementation on every run.",
     design="DESIGN.md 7 (C19)", technique="Coq big-step rules from the fuelled PEG interpreter + regenerated grammar table + differential correspondence with pyparsing"),
 }
 
